@@ -43,13 +43,15 @@ pub mod unistd {
     }
     pub struct User {
         pub uid: Uid,
+        /// primary group of the user (distinct from every group id the harnesses use)
+        pub gid: Gid,
     }
     pub struct Group {
         pub gid: Gid,
     }
     impl User {
         pub fn from_name(n: &str) -> Result<Option<User>> {
-            Ok(st().known_user.map(|u| User { uid: Uid(u) }))
+            Ok(st().known_user.map(|u| User { uid: Uid(u), gid: Gid(4_000_000_000) }))
         }
     }
     impl Group {
